@@ -140,6 +140,9 @@ impl Forge<Topic, LogId, Extensions> for OperationForge {
             operation
         });
 
+        #[cfg(p2panda_p2panda_verif)]
+        p2panda_core::verif::crash_point("forge.after_commit");
+
         Ok(operation)
     }
 }
